@@ -117,6 +117,7 @@ func c14Shutdown(r *core.Run) {
 		closeAt = time.Millisecond
 	}
 	var closeReturned time.Duration = -1
+	var serveReturned time.Duration = -1
 	var closeErr error
 	var mu sync.Mutex
 	var lateErr error
@@ -159,7 +160,11 @@ func c14Shutdown(r *core.Run) {
 		lis := w.Listen("relic.sim:6363")
 		d := daemon.ZZNew(srv, hs, []net.Listener{lis})
 		serveDone := make(chan error, 1)
-		go func() { serveDone <- d.Serve() }()
+		go func() {
+			err := d.Serve()
+			serveReturned = w.Since()
+			serveDone <- err
+		}()
 
 		do := func(c *c14bClient, gate chan struct{}) {
 			tr := &http.Transport{DisableKeepAlives: true, DialContext: func(ctx context.Context, network, addr string) (net.Conn, error) {
@@ -257,6 +262,10 @@ func c14Shutdown(r *core.Run) {
 			}
 			if c.DoneAt > closeReturned {
 				r.Failf("C14.shutdown.close-returned-early", "close", "Close returned before an in-flight request had finished: %s", desc)
+			}
+			// the serve command exits when Serve returns: it must outlast every in-flight request
+			if serveReturned >= 0 && serveReturned < c.DoneAt {
+				r.Failf("C14.shutdown.serve-returned-early", "serve", "Daemon.Serve returned at %v while a request that was being handled had not finished (the server process would exit and kill it): %s", serveReturned, desc)
 			}
 		}
 		if c.Err == nil && c.Status >= 200 && c.Status < 300 {
